@@ -13,14 +13,14 @@ import (
 	"github.com/mholt/caddy-l4/modules/l4dns"
 	"github.com/mholt/caddy-l4/modules/l4http"
 	"github.com/mholt/caddy-l4/modules/l4openvpn"
-	"github.com/mholt/caddy-l4/modules/l4quic"
-	"github.com/mholt/caddy-l4/modules/l4tls"
 	"github.com/mholt/caddy-l4/modules/l4postgres"
 	"github.com/mholt/caddy-l4/modules/l4proxyprotocol"
+	"github.com/mholt/caddy-l4/modules/l4quic"
 	"github.com/mholt/caddy-l4/modules/l4rdp"
 	"github.com/mholt/caddy-l4/modules/l4regexp"
 	"github.com/mholt/caddy-l4/modules/l4socks"
 	"github.com/mholt/caddy-l4/modules/l4ssh"
+	"github.com/mholt/caddy-l4/modules/l4tls"
 	"github.com/mholt/caddy-l4/modules/l4winbox"
 	"github.com/mholt/caddy-l4/modules/l4wireguard"
 	"github.com/mholt/caddy-l4/modules/l4xmpp"
@@ -51,21 +51,21 @@ func runP(m layer4.ConnMatcher, defLen int, udp bool, provision bool) {
 	vapi.Log("verdict", ok, env.ErrClass(err))
 }
 
-func VH_postgres()      { run(&l4postgres.MatchPostgres{}, 16, false) }
-func VH_ssh()           { run(&l4ssh.MatchSSH{}, 8, false) }
-func VH_xmpp()          { run(&l4xmpp.MatchXMPP{}, 56, false) }
-func VH_socks4()        { run(&l4socks.Socks4Matcher{}, 12, false) }
+func VH_postgres() { run(&l4postgres.MatchPostgres{}, 16, false) }
+func VH_ssh()      { run(&l4ssh.MatchSSH{}, 8, false) }
+func VH_xmpp()     { run(&l4xmpp.MatchXMPP{}, 56, false) }
+func VH_socks4()   { run(&l4socks.Socks4Matcher{}, 12, false) }
 func VH_socks4_filter() {
 	run(&l4socks.Socks4Matcher{Commands: []string{"BIND"}, Ports: []uint16{80, 443}, Networks: []string{"10.0.0.0/8", "192.168.1.7"}}, 12, false)
 }
-func VH_socks5()        { run(&l4socks.Socks5Matcher{}, 10, false) }
-func VH_socks5_filter() { run(&l4socks.Socks5Matcher{AuthMethods: []uint16{2, 128}}, 10, false) }
-func VH_proxyproto()    { run(&l4proxyprotocol.MatchProxyProtocol{}, 16, false) }
-func VH_regexp()        { run(&l4regexp.MatchRegexp{Pattern: "^[A-Z]+ /", Count: 6}, 8, false) }
+func VH_socks5()         { run(&l4socks.Socks5Matcher{}, 10, false) }
+func VH_socks5_filter()  { run(&l4socks.Socks5Matcher{AuthMethods: []uint16{2, 128}}, 10, false) }
+func VH_proxyproto()     { run(&l4proxyprotocol.MatchProxyProtocol{}, 16, false) }
+func VH_regexp()         { run(&l4regexp.MatchRegexp{Pattern: "^[A-Z]+ /", Count: 6}, 8, false) }
 func VH_regexp_default() { run(&l4regexp.MatchRegexp{Pattern: "^\\d\\d"}, 6, false) }
-func VH_wireguard()     { run(&l4wireguard.MatchWireGuard{}, 150, true) }
+func VH_wireguard()      { run(&l4wireguard.MatchWireGuard{}, 150, true) }
 func VH_wireguard_zero() { run(&l4wireguard.MatchWireGuard{Zero: 0xFF770000}, 150, true) }
-func VH_winbox()        { run(&l4winbox.MatchWinbox{}, 42, false) }
+func VH_winbox()         { run(&l4winbox.MatchWinbox{}, 42, false) }
 
 // VH_winbox_big: lengths around the 255/257-byte chunk boundary.
 func VH_winbox_big() {
@@ -95,8 +95,11 @@ func VH_winbox_frombytes() {
 func VH_winbox_filter() {
 	run(&l4winbox.MatchWinbox{Modes: []string{"romon"}, UsernameRegexp: "^adm"}, 42, false)
 }
-func VH_winbox_user() { run(&l4winbox.MatchWinbox{Modes: []string{"standard"}, Username: "ab"}, 42, false) }
-func VH_rdp()         { run(&l4rdp.MatchRDP{}, 31, false) }
+func VH_winbox_user() {
+	run(&l4winbox.MatchWinbox{Modes: []string{"standard"}, Username: "ab"}, 42, false)
+}
+func VH_rdp() { run(&l4rdp.MatchRDP{}, 31, false) }
+
 // VH_rdp_deep: payloads without CR (the CR LF scan forks per byte otherwise) long
 // enough for the negotiation request and the correlation info.
 func VH_rdp_deep() {
@@ -136,6 +139,12 @@ func VH_dns_tcp()            { run(&l4dns.MatchDNS{}, 16, false) }
 func VH_dns_udp()            { run(&l4dns.MatchDNS{}, 16, true) }
 func VH_dns_rules() {
 	run(&l4dns.MatchDNS{Allow: l4dns.MatchDNSRules{&l4dns.MatchDNSRule{Type: "A"}}, Deny: l4dns.MatchDNSRules{&l4dns.MatchDNSRule{Name: "bad.example.com."}}, DefaultDeny: true}, 16, true)
+}
+
+// VH_dns_rules_both: rules that give both an exact value and a pattern for the same field.
+func VH_dns_rules_both() {
+	run(&l4dns.MatchDNS{Allow: l4dns.MatchDNSRules{&l4dns.MatchDNSRule{Name: "good.example.com.", NameRegexp: "^good", Type: "A", TypeRegexp: "^A+$", Class: "IN", ClassRegexp: "I"}},
+		Deny: l4dns.MatchDNSRules{&l4dns.MatchDNSRule{Name: "bad.example.com.", NameRegexp: "example"}}}, 16, true)
 }
 
 // VH_http_ishttp drives the request-line heuristic directly (the rest of the
@@ -189,7 +198,7 @@ func Repl_dnsLen(m *dns.Msg) int { return vapi.Int("dns.len", 0, 65535) }
 
 func init() {
 	for name, f := range map[string]func(){
-		"VH_openvpn_tcp": VH_openvpn_tcp, "VH_openvpn_udp": VH_openvpn_udp, "VH_openvpn_crypt2_tcp": VH_openvpn_crypt2_tcp,
+		"VH_dns_rules_both": VH_dns_rules_both, "VH_openvpn_tcp": VH_openvpn_tcp, "VH_openvpn_udp": VH_openvpn_udp, "VH_openvpn_crypt2_tcp": VH_openvpn_crypt2_tcp,
 		"VH_openvpn_crypt2_udp": VH_openvpn_crypt2_udp, "VH_tls": VH_tls, "VH_quic_tcp": VH_quic_tcp, "VH_dns_tcp": VH_dns_tcp,
 		"VH_dns_udp": VH_dns_udp, "VH_dns_rules": VH_dns_rules, "VH_http_ishttp": VH_http_ishttp, "VH_http_match": VH_http_match,
 		"VH_postgres": VH_postgres, "VH_ssh": VH_ssh, "VH_xmpp": VH_xmpp, "VH_socks4": VH_socks4,
